@@ -1262,6 +1262,11 @@ class CompositeEnvelope:
         if len(states) != len(list(set(states))):
             raise ValueError("State list should contain unique elements")
 
+        # All states have to be part of this composite envelope
+        for s in states:
+            if not any(s is so for so in self.state_objs):
+                raise ValueError("Given state is not a part of this composite envelope")
+
         # Check if dimensions match
         dim = jnp.prod(jnp.array([s.dimensions for s in states]))
         for op in operators:
@@ -1409,6 +1414,10 @@ class CompositeEnvelope:
         states: BaseState
             States onto which the operator should be applied
         """
+        # All states have to be part of this composite envelope
+        for s in states:
+            if not any(s is so for so in self.state_objs):
+                raise ValueError("Given state is not a part of this composite envelope")
 
         if len(states) == 1:
             if not isinstance(states[0].index, tuple):
